@@ -47,7 +47,47 @@ pub fn roundtrip(rs: &RefSentence) -> TestResult {
         .class(rs.n_tags >= 2, "n_tags>=2"))
 }
 
+/// The sentences a user actually writes out: predicted by a model and tagged by fill_tags (the
+/// tags are then borrowed from the predictor's tag table). Tag names of the generated models
+/// contain every delimiter of the format.
+pub fn predicted_roundtrip(case: &vcommon::gen::ModelCase) -> TestResult {
+    let mut p = crate::util::predictor(&case.spec, true)?;
+    p.store_tag_scores(case.texts.len() % 2 == 0);
+    let mut any_tag = false;
+    let mut delim = false;
+    for text in &case.texts {
+        let mut s = Sentence::from_raw(text.clone()).map_err(|e| e.to_string())?;
+        p.predict(&mut s);
+        s.fill_tags();
+        let want = oracle::observe_sentence(&s);
+        let mut y = String::new();
+        s.write_partial_annotation_text(&mut y);
+        let q = Sentence::from_partial_annotation(&y).map_err(|e| format!("parser rejects the written form {y:?} of a predicted sentence: {e}"))?;
+        let got = oracle::observe_sentence(&q);
+        ensure_eq!(got.text(), want.text(), "raw text of a predicted sentence after write+parse (written {y:?})");
+        ensure_eq!(&got.labels, &want.labels, "boundaries of a predicted sentence after write+parse (written {y:?})");
+        for t in oracle::ref_tokens(&want.labels) {
+            let a = oracle::trimmed_row(&want.tags[t.end - 1], want.n_tags);
+            let b = oracle::trimmed_row(&got.tags[t.end - 1], got.n_tags);
+            ensure_eq!(b, a, "tags of token {}..{} of a predicted sentence after write+parse (written {y:?})", t.start, t.end);
+            any_tag |= !a.is_empty();
+            delim |= a.iter().flatten().any(|x| has_delim(x));
+        }
+    }
+    Ok(Info::new(delim).class(any_tag, "predicted-tags-present").class(delim, "delimiter-in-predicted-tag"))
+}
+
 pub fn run(rep: &mut Report) {
+    let n = rep.n(25000, 1000000);
+    rep.run_prop(
+        "predicted-sentences",
+        "generated models with tag models (tag names containing every delimiter of the format) x \
+texts: predict + fill_tags, write, parse: same text, boundaries and per-token tags. Non-trivial = \
+a predicted tag contains a delimiter.",
+        n,
+        || vcommon::gen::model_case(vcommon::gen::ModelCfg::TAGGED),
+        predicted_roundtrip,
+    );
     rep.run_enum(
         "scale-sentences",
         "deterministic sentences of 65,535 / 65,536 / 65,537 / 70,000 / 131,080 characters (with \
